@@ -24,6 +24,7 @@ Modelled rather than verified, and why it is harmless here:
   writes to a time feature other than the one the speed-table model writes to (`"time"`, fixed in
   `speed_traversal_model.rs`) is outside the route-level theorems.
 -/
+import Compass.Gen.Decisions
 import Compass.Proofs.Num
 import Compass.Model.Instance
 import Mathlib.Tactic.IntervalCases
@@ -1144,6 +1145,31 @@ example :
         (.arr [.str "tabular_discrete", .obj [("left", .num "2.0" 2)]]) = none := by
   decide +kernel
 
+
+end C03
+end Compass
+
+namespace Compass
+namespace C03
+open Src
+
+/-! ### Source decision ties
+
+The relational operators at the named comparison sites of the Rust source are re-extracted on every run
+by `tools/gen_model.py` into `Compass/Gen/Decisions.lean` (`Src.<site> : Src.Rel`).  Each theorem below
+says that the hand-written model decides at that site by exactly the operator the source has there
+(`Rel.nat` / `Rel.int` / `Rel.num` interpret the extracted operator; an unrecognised line is `none`).  A
+source change that turns `<` into `<=`, `>` into `>=`, … at a site changes the generated constant and this
+proof obligation stops checking, whether or not a generated case lands on the tie. -/
+
+theorem src_heading_wrap (src dst : Int × Option Int) :
+    bearing src dst =
+      (let endH := match src.2 with | some d => d | none => src.1
+       let angle := dst.1 - endH
+       if heading_wrap_high.int angle 180 = some true then angle - 360
+       else if heading_wrap_low.int angle (-180) = some true then angle + 360 else angle) := by
+  rcases src with ⟨a, _ | d⟩ <;> simp [bearing, headingWrap, heading_wrap_high, heading_wrap_low, Rel.int] <;>
+    split_ifs <;> omega
 
 end C03
 end Compass
